@@ -665,11 +665,16 @@ var (
 // parseMsgRawText returns a sequence of text and html placeholder nodes for the
 // given raw text.
 func (t *tree) parseMsgRawText(node *ast.RawTextNode) []ast.Node {
+	// node.Position() is where the text token ends; count forward from its beginning so that
+	// the positions of the parts stay inside the input.
 	var (
 		r   []ast.Node
 		txt = node.Text
-		pos = node.Position()
+		pos = node.Position() - ast.Pos(len(node.Text))
 	)
+	if pos < 0 {
+		pos = 0
+	}
 	for len(txt) > 0 {
 		var start, end = len(txt), len(txt)
 		var ii = htmlTagRegexp.FindSubmatchIndex(txt)
